@@ -5,3 +5,9 @@ claim('C12',
       'variable-writing closure, switch/try arm-loop shape, and dominance of the splat length subtraction by its '
       'comparison. A finite decision table extracted from rustc HIR plus CFG path queries over MIR.',
       'finite pattern tables from HIR + MIR must-pass-through (dominance) queries')
+claim('C07',
+      'Decides the dispatch structure of the numeric tower, not numeric values: the exhaustive 4x4 result-level table of '
+      'every binary_match!-generated operator impl and of div_floor/mod_floor (288 rows), that each level applies the impl\'s '
+      'own operation, that // and %% come from one rounding family per level (flooring helpers), the operand-side, '
+      'length-guard and error arms of the vectorisation wrappers, and the zero-divisor guard of exact division.',
+      'finite decision tables from HIR patterns + MIR callee/provenance facts')
